@@ -154,6 +154,13 @@ class CheckRun:
         self.tier = a.tier
         self.replay_path = a.replay
         self.seed = int(os.environ.get("VERIF_SEED", "0") or 0)
+        if self.replay_path:
+            # a replay re-runs the deterministic check with the recorded seed and tier:
+            # every random choice derives from the seed, so the recorded case is regenerated
+            rp = json.loads(Path(self.replay_path).read_text())
+            self.seed = int(rp.get("seed", self.seed))
+            self.tier = rp.get("tier", self.tier)
+            print(f"replaying {self.replay_path}: kind={rp.get('kind')} sig={rp.get('sig')}\n  {rp.get('what')}")
         self.t0 = time.time()
         self.violations: list[Violation] = []
         self.evaluations = 0
@@ -314,7 +321,8 @@ class CheckRun:
         self.traces_validated += len(cases_json) - len(set(bad_agree) | set(bad_holds))
         sig_of = sig_of or (lambda i: f"{self.pid}/{relation or 'model'}")
         seen = set()
-        for i in bad_holds:
+        size = lambda i: len(json.dumps(jsonable(cases_json[i]), default=str))
+        for i in sorted(bad_holds, key=size):  # smallest failing case first
             s = sig_of(i)
             if s in seen:
                 continue
@@ -406,6 +414,25 @@ class CheckRun:
                  f"nontrivial {len(self.nontrivial_keys)}, violations {len(real)}, known {sum(self.known_hit.values())}")
         sys.stdout.flush()
         sys.exit(1 if real else 0)
+
+
+def run_main(pid, body):
+    """Run a check body; an exception escaping from the implementation under test
+    (or from the harness) is reported as a violation with the traceback as replay."""
+    import traceback
+
+    ck = CheckRun(pid)
+    try:
+        body(ck)
+    except SystemExit:
+        raise
+    except BaseException as e:  # noqa: BLE001
+        tb = traceback.format_exc()
+        ck.log("exception while exercising the implementation:\n" + tb[-3000:])
+        ck.violations.append(Violation("impl-violates-property", f"{pid}/exception/{type(e).__name__}",
+                                       f"lerax raised {type(e).__name__} on a generated valid input: {str(e)[:300]}",
+                                       case=getattr(ck, "current_case", None), extra={"traceback": tb[-6000:]}))
+    ck.finish()
 
 
 def setup_jax(x64=True):
